@@ -195,6 +195,18 @@ func (s *sess) do(c call) string {
 		if err := s.c.Wstat(f, &go9p.Dir{Name: "x"}); err != nil {
 			return "error: " + err.Error()
 		}
+	case "refused-read", "refused-stat":
+		// the peer answers Rerror: the caller gets that error (and the client is as fit for the calls around it as before)
+		var err error
+		if c.kind == "refused-read" {
+			_, err = s.c.Read(f, c.offset, c.count)
+		} else {
+			_, err = s.c.Stat(f)
+		}
+		ge, ok := err.(*go9p.Error)
+		if err == nil || !ok || ge.Err != peer.ErrText(c.fidn) {
+			return fmt.Sprintf("%s(fid %d) was refused by the peer with %q, the caller got %v", c.kind, c.fidn, peer.ErrText(c.fidn), err)
+		}
 	case "create":
 		f.Iounit = 0
 		if err := s.c.Create(f, fmt.Sprintf("n%d", c.fidn), 0o644, 1, ""); err != nil {
@@ -249,6 +261,10 @@ func mkcall(r *core.Rand, id uint32, maxcount int) call {
 	}
 	k := kinds[r.Intn(len(kinds))]
 	c := call{kind: k, fidn: id*4 + 100, offset: uint64(r.Intn(1 << 30)), count: uint32(r.Intn(maxcount + 1))}
+	if r.Intn(10) == 0 {
+		c.kind = []string{"refused-read", "refused-stat"}[r.Intn(2)]
+		c.fidn = peer.ErrFid + id*4
+	}
 	if k == "write" {
 		c.data = r.Bytes(r.Intn(maxcount + 1))
 	}
